@@ -96,9 +96,15 @@ def shrink(spec, binp, case, seed, kind, budget=60):
         pr = eval_case(spec, c, tr, o, record=False)
         if hasattr(spec, "derive"):
             for b in spec.backends:
+                lst = []
                 for (dc, ctx) in spec.derive(c, tr[b], b):
                     dt = run_cases(binp, [dc], b, seed + 7, shards=1).get(dc.name, [])
-                    pr += [("oracle", m, b, None) for m in spec.compare_derived(c, tr[b], ctx, dt, b)]
+                    lst.append((ctx, dt))
+                if hasattr(spec, "compare_all_derived"):
+                    pr += [("oracle", m, b, None) for m in spec.compare_all_derived(c, tr[b], lst, b)]
+                else:
+                    for (ctx, dt) in lst:
+                        pr += [("oracle", m, b, None) for m in spec.compare_derived(c, tr[b], ctx, dt, b)]
         if hasattr(spec, "cross"):
             pr += [("oracle", m, "both", None) for m in spec.cross(c, tr)]
         return any(k == kind for (k, _, _, _) in pr)
@@ -162,16 +168,28 @@ def run_l1_property(spec, tier, seed, replay=None, proof=None):
             out.samples.append({"case": c.name, "backend": spec.backends[-1],
                                 "ops_and_responses": [f"{o}  =>  {ri}" for o, ri, _ in tr[:40]]})
     if hasattr(spec, "derive"):
-        # second run: derived cases (e.g. per-client projections), compared with the first run
+        # second run: derived cases (e.g. per-client projections, sequential permutations),
+        # compared with the first run; derived cases with the same name are run once
         for b in spec.backends:
             derived = []
             for c in cases:
                 for (dc, ctx) in spec.derive(c, results[b].get(c.name, []), b):
                     derived.append((c, dc, ctx))
-            dres = run_cases(binp, [dc for _, dc, _ in derived], b, seed + 7)
+            uniq = {}
+            for _, dc, _ in derived:
+                uniq.setdefault(dc.name, dc)
+            dres = run_cases(binp, list(uniq.values()), b, seed + 7)
+            by_case = {}
             for (c, dc, ctx) in derived:
-                msgs = spec.compare_derived(c, results[b].get(c.name, []), ctx, dres.get(dc.name, []), b)
-                out.evaluations += 1
+                by_case.setdefault(c.name, (c, []))[1].append((ctx, dres.get(dc.name, [])))
+            for cname, (c, lst) in by_case.items():
+                if hasattr(spec, "compare_all_derived"):
+                    msgs = spec.compare_all_derived(c, results[b].get(c.name, []), lst, b)
+                else:
+                    msgs = []
+                    for (ctx, dt) in lst:
+                        msgs += spec.compare_derived(c, results[b].get(c.name, []), ctx, dt, b)
+                out.evaluations += len(lst)
                 if msgs:
                     problems.append((c, [("oracle", m, b, None) for m in msgs],
                                      {bb: results[bb].get(c.name, []) for bb in spec.backends}))
@@ -189,8 +207,18 @@ def finish(spec, tier, seed, proof, out, problems, binp, t0, ncases, extra_cov=N
     # 1. a concrete failing input on the implementation (oracle) beats a mere correspondence break
     problems.sort(key=lambda x: (0 if any(k == "oracle" for k, *_ in x[1]) else 1, len(x[0].ops)))
     reported = set()
-    for (c, pr, traces) in problems[:3]:
+    known_printed = set()
+    for (c, pr, traces) in problems:
         kind = "oracle" if any(k == "oracle" for k, *_ in pr) else "correspondence"
+        # a listed known finding is announced (once) and never hides a different violation
+        sig = getattr(spec, "signature", lambda c, pr: None)(c, pr)
+        kmatch = [k for k in known if sig is not None and k.get("signature") == sig]
+        if kmatch:
+            key = json.dumps(sig, sort_keys=True)
+            if key not in known_printed:
+                known_printed.add(key)
+                print(f"KNOWN-FINDING: property={prop} {kmatch[0]['what']}")
+            continue
         if kind in reported:
             continue
         reported.add(kind)
@@ -201,11 +229,6 @@ def finish(spec, tier, seed, proof, out, problems, binp, t0, ncases, extra_cov=N
             except Exception as e:
                 log(f"shrink failed: {e}")
         msgs = [m for k, m, *_ in pr if k == kind]
-        sig = getattr(spec, "signature", lambda c, pr: None)(c, pr)
-        kmatch = [k for k in known if sig is not None and k.get("signature") == sig]
-        if kmatch:
-            print(f"KNOWN-FINDING: property={prop} {kmatch[0]['what']}")
-            continue
         payload = {"property": prop, "kind": kind, "name": c.name, "symbolic_ops": ops, "meta": c.meta, "mode": c.mode,
                    "messages": msgs[:10], "seed": seed,
                    "how_to_replay": f"./check {prop} --replay <this file>",
